@@ -15,7 +15,7 @@
 (* The taproot output key is the x-only key element named "TAP".           *)
 (*                                                                         *)
 (* The result is [ok, tr]: verdict and the sequence of machine states      *)
-(* [st, alt, cmp, ph] after every executed opcode, where the entry of the  *)
+(* [st, alt, cmp, ph, ops] after every executed opcode; the entry of the   *)
 (* last opcode of a script already shows the stack the next script starts  *)
 (* from (the implementation performs that hand-over in the same step).     *)
 (* cmp = FALSE marks entries whose stack the property does not define      *)
@@ -66,7 +66,12 @@ P2PKHScript(prog) == <<Op("OP_DUP"), Op("OP_HASH160"), Push(prog), Op("OP_EQUALV
 -----------------------------------------------------------------------------
 (* traces *)
 
-Entry(s, ph) == [st |-> s.st, alt |-> s.alt, cmp |-> TRUE, ph |-> ph]
+\* ops: the counted operations of the running script so far.  The counter is
+\* per script: every script (scriptSig, scriptPubKey, redeem script, witness
+\* script) starts from VM0 with ops = 0, and the hand-over entry shows the
+\* reset (ops = 0).  At most 201 per script outside tapscript, CHECKMULTISIG
+\* adding its key count (ScriptVM!Exec, CheckMultiSig).
+Entry(s, ph) == [st |-> s.st, alt |-> s.alt, cmp |-> TRUE, ph |-> ph, ops |-> s.ops]
 
 \* states after each token of script from s (stops after the first failure)
 RECURSIVE Steps(_, _, _, _)
@@ -88,7 +93,7 @@ RunScript(st0, c, script, budget, ph) ==
 \* replace the stacks of the last trace entry by the hand-over stack
 HandOver(tr, st, cmp) ==
     IF Len(tr) = 0 THEN tr
-    ELSE [tr EXCEPT ![Len(tr)] = [st |-> st, alt |-> <<>>, cmp |-> cmp, ph |-> @.ph]]
+    ELSE [tr EXCEPT ![Len(tr)] = [st |-> st, alt |-> <<>>, cmp |-> cmp, ph |-> @.ph, ops |-> 0]]
 
 Res(ok, tr) == [ok |-> ok, tr |-> tr]
 
